@@ -674,14 +674,14 @@ where
         let entries = self.entry_bufs.unwrap_or_default();
         let props = self.props.unwrap_or_else(Properties::new);
         let props_size = props.size();
-        let property_length = VariableByteInteger::from_u32(props_size as u32).unwrap();
+        let property_length = VariableByteInteger::from_len(props_size)?;
 
         let packet_id_size = mem::size_of::<<PacketIdType as IsPacketId>::Buffer>();
         let prop_len_size = property_length.size();
         let entries_size = entries.iter().map(|e| e.size()).sum::<usize>();
 
         let remaining = packet_id_size + prop_len_size + props_size + entries_size;
-        let remaining_length = VariableByteInteger::from_u32(remaining as u32).unwrap();
+        let remaining_length = VariableByteInteger::from_len(remaining)?;
 
         Ok(GenericUnsubscribe {
             fixed_header: [FixedHeader::Unsubscribe as u8],
